@@ -240,6 +240,58 @@ Theorem c04_renumbering_after_gc_defined_on_kept :
 Proof. exact rho_gc_defined. Qed.
 
 
+(* ---- every function of a parsed module has an emitted index (no GC), so the signature theorem holds without its side premises; the
+   function renumbering is a bijection of [0, n) *)
+From Coq Require Import List NArith ZArith Bool Arith Lia Permutation.
+Import ListNotations.
+From WV Require Import Gen.Ops Model.Common Model.IR Model.Arena Model.Traversal Model.EmitFn Model.Locals
+                       Model.ParseFn Model.ModuleM Model.ParseM Model.EmitM Gen.Attrs.
+From WV Require Import Proofs.Arena Proofs.Order Proofs.IndexMaps Proofs.Names Proofs.Totality Proofs.TotalityBodies
+                       Proofs.CustomsCfg Proofs.Locals2 Proofs.Structure Proofs.ParsedWf Proofs.Structure2
+                       Proofs.Renumbering Proofs.Locals3.
+From WV Require Import Proofs.Sigs2.
+Local Open Scope nat_scope.
+Theorem c04_every_function_emitted :
+  forall (cf : config) (ver : nstr) (w : wmod) (s : pst) (ilen : wins -> N) 
+           (dw : list wsec) (e : emitted),
+         parseM cf ver w = POk s ->
+         emitM (ps_m s) ilen dw = Ok e ->
+         forall i : nat,
+         i < length (flat_map sec_ftys w) ->
+         exists j : N,
+           get_idx (em_x2i e) S_func (N.of_nat i) = Ok j /\ N.to_nat j < length (flat_map sec_ftys w).
+Proof. exact parsed_funcs_all_emitted. Qed.
+
+Theorem c04_function_signatures_unconditional :
+  forall (cf : config) (ver : nstr) (w : wmod) (s : pst) (ilen : wins -> N) 
+           (dw : list wsec) (e : emitted),
+         parseM cf ver w = POk s ->
+         emitM (ps_m s) ilen dw = Ok e ->
+         dw_custom dw ->
+         forall (i : nat) (ti : N),
+         nth_error (flat_map sec_ftys w) i = Some ti ->
+         exists (t : list valty * list valty) (j tj : N),
+           nth_error (flat_map types_of w) (N.to_nat ti) = Some t /\
+           get_idx (em_x2i e) S_func (N.of_nat i) = Ok j /\
+           nth_error (out_ftys e) (N.to_nat j) = Some tj /\ nth_error (out_types e) (N.to_nat tj) = Some t.
+Proof. exact structure_func_sigs_unconditional. Qed.
+
+Theorem c04_function_renumbering_bijective :
+  forall (cf : config) (ver : nstr) (w : wmod) (s : pst) (ilen : wins -> N) 
+           (dw : list wsec) (e : emitted),
+         parseM cf ver w = POk s ->
+         emitM (ps_m s) ilen dw = Ok e ->
+         dw_custom dw ->
+         let n := length (flat_map sec_ftys w) in
+         let f := fun i : nat => get_idx (em_x2i e) S_func (N.of_nat i) in
+         length (out_ftys e) = n /\
+         (forall i : nat, i < n -> exists j : N, f i = Ok j /\ N.to_nat j < n) /\
+         (forall (i i' : nat) (j : N), f i = Ok j -> f i' = Ok j -> i = i') /\
+         (forall j : N, N.to_nat j < n -> exists i : nat, i < n /\ f i = Ok j) /\
+         (forall (i : nat) (j : N), f i = Ok j -> i < n).
+Proof. exact func_renumbering_bijective. Qed.
+
+
 Print Assumptions c04_attr_table_local.
 Print Assumptions c04_attr_table_import.
 Print Assumptions c04_attr_memory_local.
@@ -270,3 +322,6 @@ Print Assumptions c04_functions_in_emitter_order.
 Print Assumptions c04_types_merged_exactly_when_equal.
 Print Assumptions c04_renumbering_after_gc_injective.
 Print Assumptions c04_renumbering_after_gc_defined_on_kept.
+Print Assumptions c04_every_function_emitted.
+Print Assumptions c04_function_signatures_unconditional.
+Print Assumptions c04_function_renumbering_bijective.
